@@ -193,3 +193,40 @@ func VH_C06_PrefixDeterministic(np, n1, n2 int) {
 	b1, b2 := hasSrcPrefix(p, m), hasSrcPrefix(p, m)
 	vAssert(b1 == b2, "hasSrcPrefix does not depend on map iteration order")
 }
+
+// VH_C15_Gate: with naming off no argument carries a name, whatever the other
+// options are; with naming on the repeated pointer is named.
+//
+//verif:prop C15
+//verif:param opt 0..3
+func VH_C15_Gate(opt int) {
+	root := vTempRoot()
+	vSetFile(root + "/unrelated")
+	opts := &Opts{LocalGOROOT: root + "/goroot", LocalGOPATHs: []string{root + "/gopath"}}
+	switch opt {
+	case 1:
+		opts.GuessPaths = true
+	case 2:
+		opts.GuessPaths, opts.AnalyzeSources = true, true
+	case 3:
+		opts.NameArguments = true
+	}
+	dump := []byte("goroutine 1 [running]:\nmain.f(0xc000012340, 0xc000012340)\n\t/x/a.go:1 +0x1\n\ngoroutine 2 [running]:\nmain.g(0xc000012340)\n\t/x/a.go:2 +0x1\n\n")
+	s, _, _ := ScanSnapshot(&vhFeeder{data: dump}, &vhSink{}, opts)
+	vReach("scanned with options")
+	vAssert(s != nil && len(s.Goroutines) == 2, "dump parsed")
+	if s == nil {
+		return
+	}
+	for _, g := range s.Goroutines {
+		for _, c := range g.Stack.Calls {
+			for _, a := range c.Args.Values {
+				if opt == 3 {
+					vAssert(a.Name == "#1", "with naming on the recurring pointer is named")
+				} else {
+					vAssert(a.Name == "", "with naming off no argument carries a name")
+				}
+			}
+		}
+	}
+}
